@@ -113,7 +113,8 @@ def run(ctx, replay):
         inp = os.path.join(wd, "in.y")
         outp = os.path.join(wd, "out.gen")
         open(inp, "w").write(text)
-        old = ("OLD CONTENT %d %s\n" % (n, cause)).encode() * 3
+        # the file that is already there: sometimes short, sometimes far longer than anything yaccgo writes
+        old = ("OLD CONTENT %d %s\n" % (n, cause)).encode() * (3 if n % 2 == 0 else 20000)
         open(outp, "wb").write(old)
         args = [cli, "generate"] + ([opts] if opts else []) + [lang, "in.y", "out.gen"]
         try:
